@@ -12,8 +12,92 @@ Definition import_comment_ok (c : bytes) : bool :=
   | 10%N :: rb => has_prefix c [45%N; 45%N] && negb (existsb (N.eqb 10) rb) && negb (has_prefix c S_HDR)
   | _ => false
   end.
+(** the command of an imported statement is the source text without ONE trailing ";" and nothing
+    else trimmed (strings.TrimSuffix): it may end in white space or in the line break that ends a
+    trailing comment, hence [scan_closed_semi] (the delimiter the formatter appends stays in the
+    text, only the start has to be trimmed) and not [scan_closed]. *)
 Definition import_stmt_ok (s : Stmt) : bool :=
-  forallb import_comment_ok (Comments s) && scan_closed opts_generic delimiter (trim_suffix (Text s) delimiter).
+  forallb import_comment_ok (Comments s) && scan_closed_semi opts_generic (trim_suffix (Text s) delimiter).
+
+(** ** the scanner loop over segments closed in the [scan_closed_semi] sense *)
+Local Open Scope Z_scope.
+Lemma scan_loop_segs_semi o gend :
+  GoCommand o = false -> Gap delimiter gend ->
+  forall segs s f acc g,
+  Forall (fun gc => Gap delimiter (fst gc) /\ scan_closed_semi o (snd gc) = true) segs ->
+  Gap delimiter g -> input s = g ++ body delimiter segs gend -> pos s = 0 -> delim s = delimiter -> endterm s = false ->
+  (length (input s) + 5 <= f)%nat ->
+  exists ss, scan_loop o f s acc = Ok (rev acc ++ ss) /\
+             map Text ss = map (fun gc => snd gc ++ delimiter) segs.
+Proof.
+  intros Hgo Hgend. induction segs as [|[g1 c1] segs IH]; intros s f acc g Hall Hg Hin Hp Hdl Het Hf.
+  - unfold body in Hin. simpl in Hin.
+    destruct f as [|f]; [lia|]. rewrite scan_loop_S.
+    destruct (stmt_gap_eof o delimiter (g ++ gend) s (S f) Hgo eq_refl gap_delim_ok_semi (Gap_app _ _ _ Hg Hgend) Hin Hp Hdl Het) as [s' Hs'].
+    { rewrite Hin in Hf. lia. }
+    rewrite Hs'. cbn [bind]. exists []. rewrite app_nil_r. split; reflexivity.
+  - apply Forall_cons_iff in Hall as [[Hg1 Hc1] Hall']. simpl in Hg1, Hc1.
+    destruct f as [|f]; [lia|]. rewrite scan_loop_S.
+    assert (Hin' : input s = (g ++ g1) ++ c1 ++ delimiter ++ [10%N] ++ body delimiter segs gend).
+    { rewrite Hin. unfold body. simpl. unfold seg at 1. simpl. repeat rewrite <- app_assoc. reflexivity. }
+    destruct (stmt_gap_closed_semi o (g ++ g1) c1 (body delimiter segs gend) s (S f) Hgo Hc1 (Gap_app _ _ _ Hg Hg1) Hin' Hp Hdl Het)
+      as (s' & cs & Hst & Hi' & Hp' & Hd' & He' & _ & _ & _).
+    { rewrite Hin' in Hf. repeat rewrite app_length in Hf. repeat rewrite app_length. simpl in *. lia. }
+    rewrite Hst. cbn [bind].
+    destruct (IH s' f (mkStmt (total s + zlen (g ++ g1)) (c1 ++ delimiter) cs :: acc) [10%N] Hall'
+                 (gap_nl _ _ (gap_nil _))) as (ss & Hss & Hts); auto.
+    { rewrite Hi'. rewrite Hin' in Hf. repeat rewrite app_length in Hf. simpl in *.
+      assert (1 <= length c1)%nat.
+      { destruct c1; [|simpl; lia]. unfold scan_closed_semi in Hc1. rewrite andb_false_r in Hc1. discriminate. }
+      lia. }
+    exists (mkStmt (total s + zlen (g ++ g1)) (c1 ++ delimiter) cs :: ss).
+    split.
+    + rewrite Hss. simpl. rewrite <- app_assoc. reflexivity.
+    + simpl. rewrite Hts. reflexivity.
+Qed.
+
+Lemma scan_plain_semi o g segs gend :
+  GoCommand o = false -> Gap delimiter g -> Gap delimiter gend ->
+  Forall (fun gc => Gap delimiter (fst gc) /\ scan_closed_semi o (snd gc) = true) segs ->
+  has_prefix (g ++ body delimiter segs gend) S_HDR = false ->
+  texts_of (scan o (g ++ body delimiter segs gend)) = Some (map (fun gc => snd gc ++ delimiter) segs).
+Proof.
+  intros Hgo Hg Hge Hall Hh. unfold texts_of, scan, Scan. rewrite (init_plain _ Hh). cbn [bind].
+  set (inp := g ++ body delimiter segs gend).
+  destruct (scan_loop_segs_semi o gend Hgo Hge segs
+              (mkScanner inp inp 0 0 0 delimiter [] false)
+              (fuel_of inp) [] g Hall Hg) as (ss & Hs & Ht); try reflexivity.
+  { simpl. unfold fuel_of. lia. }
+  rewrite Hs. simpl. rewrite Ht. reflexivity.
+Qed.
+
+Lemma closed_semi_not_dashdash o cmd : scan_closed_semi o cmd = true -> has_prefix cmd [45%N; 45%N] = false.
+Proof.
+  intros H. destruct cmd as [|a [|b t]]; try reflexivity.
+  { simpl. apply andb_false_r. }
+  simpl has_prefix. destruct (N.eqb a 45) eqn:Ea; [|reflexivity]. destruct (N.eqb b 45) eqn:Eb; [|reflexivity].
+  apply N.eqb_eq in Ea. apply N.eqb_eq in Eb. subst a b. exfalso.
+  unfold scan_closed_semi in H. apply andb_true_iff in H as [_ H].
+  cbn [length] in H. rewrite cw_unfold in H.
+  change ((45%N :: 45%N :: t) ++ follow delimiter) with (45%N :: 45%N :: (t ++ follow delimiter)) in H.
+  change (decode_rune (45%N :: 45%N :: t ++ follow delimiter)) with (45%N, 1%Z) in H.
+  cbv zeta beta iota in H. change (Z.to_nat 1) with 1%nat in H.
+  cbn -[has_prefix has_prefix_ci cw begin_hint] in H.
+  destruct (has_prefix_ci _ W_DELIMITER) in H; [discriminate H|].
+  destruct (has_prefix _ delimiter) in H; [discriminate H|].
+  destruct (MatchDollarQuote o && false && false) in H; discriminate H.
+Qed.
+
+Lemma seg_no_hdr_semi o c rest :
+  scan_closed_semi o c = true -> has_prefix (c ++ delimiter ++ rest) S_HDR = false.
+Proof.
+  intros Hc. pose proof (closed_semi_not_dashdash _ _ Hc) as Hdd.
+  destruct c as [|a [|b t]].
+  - unfold scan_closed_semi in Hc. rewrite andb_false_r in Hc. discriminate.
+  - simpl. destruct (N.eqb a 45); reflexivity.
+  - simpl in *. destruct (N.eqb a 45); [|reflexivity]. destruct (N.eqb b 45); [discriminate|reflexivity].
+Qed.
+Local Close Scope Z_scope.
 
 Definition import_gap (s : Stmt) : bytes :=
   concat (map (fun c => if has_suffix c S_NL then c else c ++ S_NL) (Comments s)).
@@ -72,7 +156,7 @@ Theorem import_file_roundtrip version desc ss :
   Some (map (fun s => trim_suffix (Text s) delimiter ++ delimiter) ss).
 Proof.
   intros Hall. rewrite import_content_body. unfold Stmts.
-  pose proof (scan_plain opts_generic [] (map import_seg ss) [] eq_refl (gap_nil _) (gap_nil _)) as HS.
+  pose proof (scan_plain_semi opts_generic [] (map import_seg ss) [] eq_refl (gap_nil _) (gap_nil _)) as HS.
   cbn [app] in HS. rewrite HS.
   - rewrite map_map. reflexivity.
   - rewrite Forall_map. apply Forall_forall. intros s Hs.
@@ -84,9 +168,8 @@ Proof.
     unfold body. cbn [map concat]. unfold seg at 1. cbn [fst snd import_seg]. repeat rewrite <- app_assoc.
     unfold import_gap. destruct (Comments s) as [|c cs] eqn:Ec.
     + cbn [map concat app].
-      apply (seg_no_hdr delimiter opts_generic [] (trim_suffix (Text s) delimiter)
-               (10%N :: concat (map (seg delimiter) (map import_seg ss')) ++ []));
-        [exact H2|left; reflexivity|discriminate|discriminate].
+      apply (seg_no_hdr_semi opts_generic (trim_suffix (Text s) delimiter)
+               (10%N :: concat (map (seg delimiter) (map import_seg ss')) ++ [])). exact H2.
     + cbn [forallb] in H1. apply andb_true_iff in H1 as [Hc _].
       destruct (import_comment_shape c Hc) as (b & -> & Hb & Hh).
       cbn [map concat].
